@@ -134,7 +134,7 @@ fn proof_case(run: &mut Run, o: &Objects, vk: &MidnightVK, is_a: bool, info: &Pr
                 Err(e) => format!("reject:{}", format!("{e:?}").split(['(', ' ', '{']).next().unwrap_or("?")),
             };
             run.ctx.count(&format!("verify:{v}"));
-            if matches!(res, Ok(())) && kind != "honest" && kind != "cross-honest" {
+            if matches!(res, Ok(())) && proof != &(if is_a { &o.a.proof } else { &o.b.proof })[..] {
                 // not part of C16's statement (that is C03), but worth a loud counter
                 run.ctx.count("verify:MUTANT-ACCEPTED");
             }
